@@ -11,7 +11,7 @@ import (
 
 func init() {
 	register(&Rule{ID: "R-ctx-restore", Floor: 25, Run: ruleCtxRestore,
-		Doc: "context fields of the analyzer (Module.CurrentFunction, LoopDepth, CurrentLoopIsTerminated, CreateErrorIfContainsAny, Scopes; Analyzer.currentModule/currentModuleName), of the interpreter (callStackSize, currentModule(+Name), scope stack) and of the compiler (currFn, currModule, loops, varScopes) are discovered as the struct fields that some function saves and writes back, ++/--, pushes/pops, or writes around a nested call. For every function that writes one (directly or through a leaf setter interpreted at the call site) every path, deferred calls included, must leave the field at its entry value (restored from a local saved before the write, counter/stack balance 0) whenever a call that depends on the field was made while it was modified. Accepted otherwise only with proof: a constant written back that every call site provably establishes before the call; a non-restoring function all of whose callers save and restore around the call; outermost activations (root drivers, saved value nil). Necessary for C03/C09/C11: a construct analysed/executed after a nested one would otherwise see the nested construct's function, loop depth, any-policy, scope or module."})
+		Doc: "context fields of the analyzer (Module.CurrentFunction, LoopDepth, CurrentLoopIsTerminated, CreateErrorIfContainsAny, Scopes; Analyzer.currentModule/currentModuleName), of the interpreter (callStackSize, currentModule(+Name), scope stack) and of the compiler (currFn, currModule, loops, varScopes) are discovered as the struct fields that some function saves and writes back, ++/--, pushes/pops, or writes around a nested call. For every function that writes one (directly or through a leaf setter interpreted at the call site) every path, deferred calls included, must leave the field at its entry value (restored from a local saved before the write, counter/stack balance 0) whenever a call that depends on the field was made while it was modified (a call through a function value — closure parameter, callback field — counts as depending on every context field). Accepted otherwise only with proof: a constant written back that every call site provably establishes before the call; a non-restoring function all of whose callers save and restore around the call; outermost activations (root drivers, saved value nil). Necessary for C03/C09/C11: a construct analysed/executed after a nested one would otherwise see the nested construct's function, loop depth, any-policy, scope or module."})
 	register(&Rule{ID: "R-loop-region", Floor: 7, Run: ruleLoopRegion,
 		Doc: "the region in which the loop counter/stack (analyzer Module.LoopDepth, compiler Compiler.loops) is raised encloses exactly the analysis/compilation of the loop's body: every call made while it is raised that receives a syntax-tree node receives a Block-typed field of the loop node, every other tree-typed field of the loop node (condition, iterator expression) is processed outside the region, and loop / while / for agree (also analyzer vs compiler). Necessary for C03/C11: break/continue legality is `LoopDepth > 0`, so a header expression analysed inside the region accepts `while { break; true } {}` for which the compiler has no loop to jump to. Function boundary: a function that installs a new function context around a body analyses that body with the loop counter at 0 (reset there, or 0 at every call site) — the counter counts loops of the current function only."})
 }
@@ -165,7 +165,11 @@ func (a *actxAnalysis) judge(r *actxFnResult, f *types.Var) (written bool, v act
 				viol = append(viol, fmt.Sprintf("%s is written back as different constants (%s, %s)", m.fieldName(f), constK, val.k))
 			}
 			constK = val.k
-			consts = append(consts, fmt.Sprintf("%s [%s]", where, actxPathStr(e.st)))
+			w := where
+			if val.why != "" {
+				w += "; " + val.why
+			}
+			consts = append(consts, fmt.Sprintf("%s [%s]", w, actxPathStr(e.st)))
 		case val.kind == avAmbig:
 			viol = append(viol, fmt.Sprintf("%s after a setter whose effect is path dependent: %s [%s; %s]", m.fieldName(f), val, actxPathStr(e.st), where))
 		default:
@@ -209,10 +213,63 @@ func (a *actxAnalysis) judge(r *actxFnResult, f *types.Var) (written bool, v act
 // constAtSites: every call site of fn establishes f == k before the call
 // (callers that do not write f pass the question to their own callers).
 func (a *actxAnalysis) constAtSites(fn *types.Func, f *types.Var, k string, seen map[*types.Func]bool) (bool, string) {
+	if len(seen) == 0 {
+		// The proof passes the question up through callers that do not write f themselves and
+		// assumes that the functions called in between preserve f. That assumption fails for a
+		// field that some function of the package hands back changed (an emission such as the
+		// `break` mark): a later call site can then see another value although no caller on the
+		// chain writes it. The proof also needs at least one site that really establishes k.
+		if other, who := a.leavesOther(fn, f, k); other {
+			return false, who
+		}
+		seen[fn] = true
+		ok, how := a.constAtSites2(fn, f, k, seen)
+		if ok && !strings.Contains(how, " sets ") {
+			return false, "no call site on the chains of callers establishes the constant (the chains only lead back into the recursion)"
+		}
+		return ok, how
+	}
 	if seen[fn] {
 		return true, ""
 	}
 	seen[fn] = true
+	return a.constAtSites2(fn, f, k, seen)
+}
+
+// leavesOther: some other function of the package (not interpreted at its call sites, not a root
+// driver) can return with f neither at its entry value nor equal to k.
+func (a *actxAnalysis) leavesOther(fn *types.Func, f *types.Var, k string) (bool, string) {
+	m := a.m
+	var fns []*types.Func
+	for g := range a.res {
+		fns = append(fns, g)
+	}
+	sort.Slice(fns, func(i, j int) bool { return actxPosLess(m.c, fns[i].Pos(), fns[j].Pos()) })
+	for _, g := range fns {
+		if g == fn || m.inlinable[g] || m.rootLike[g] {
+			continue
+		}
+		for _, e := range a.res[g].exits {
+			if e.errExit && !m.catchable[g] {
+				continue
+			}
+			if e.st.outermost != "" {
+				continue
+			}
+			val := a.entryVal(e.st, f)
+			if val.atEntry() || val.gen != 0 {
+				continue
+			}
+			if val.kind == avConst && val.delta == 0 && val.k == k {
+				continue
+			}
+			return true, fmt.Sprintf("%s can return with %s = %s, so a call site reached after it sees that value although no caller on the chain writes it", g.Name(), m.fieldName(f), val)
+		}
+	}
+	return false, ""
+}
+
+func (a *actxAnalysis) constAtSites2(fn *types.Func, f *types.Var, k string, seen map[*types.Func]bool) (bool, string) {
 	sites := a.sites[fn]
 	if len(sites) == 0 {
 		return false, fn.Name() + " has no call site inside the package that establishes the constant"
@@ -237,6 +294,7 @@ func (a *actxAnalysis) constAtSites(fn *types.Func, f *types.Var, k string, seen
 		}
 	}
 	how = actxUniq(how)
+	sort.Strings(how)
 	if len(how) > 4 {
 		how = append(how[:4], "…")
 	}
@@ -260,7 +318,7 @@ func (a *actxAnalysis) compensated(fn *types.Func, f *types.Var) (bool, string) 
 	for c := range callers {
 		list = append(list, c)
 	}
-	sort.Slice(list, func(i, j int) bool { return list[i].Pos() < list[j].Pos() })
+	sort.Slice(list, func(i, j int) bool { return actxPosLess(m.c, list[i].Pos(), list[j].Pos()) })
 	for _, c := range list {
 		if m.rootLike[c] {
 			oks = append(oks, c.Name()+" (root driver)")
@@ -287,6 +345,7 @@ func (a *actxAnalysis) compensated(fn *types.Func, f *types.Var) (bool, string) 
 		}
 	}
 	if len(fails) > 0 {
+		sort.Strings(fails)
 		if len(fails) > 2 {
 			fails = fails[:2]
 		}
@@ -311,7 +370,7 @@ func ruleCtxRestore(c *Ctx) []Obligation {
 		for fn := range a.res {
 			fns = append(fns, fn)
 		}
-		sort.Slice(fns, func(i, j int) bool { return fns[i].Pos() < fns[j].Pos() })
+		sort.Slice(fns, func(i, j int) bool { return actxPosLess(c, fns[i].Pos(), fns[j].Pos()) })
 		for _, fn := range fns {
 			r := a.res[fn]
 			if r.over || len(r.unsup) > 0 {
@@ -374,6 +433,7 @@ func actxTreeType(t types.Type) (*types.Named, bool) {
 }
 
 type actxRegionCall struct {
+	owner  *types.Func // the function the call is attributed to (the caller, when the region's argument is a parameter)
 	inside bool
 	callee string
 	node   string // struct type of the loop node
@@ -390,13 +450,7 @@ func ruleLoopRegion(c *Ctx) []Obligation {
 	for _, rel := range []string{"homescript/analyzer", "homescript/compiler"} {
 		a := actxAnalyse(c, rel)
 		m := a.m
-		var loopFields []*types.Var
-		for _, f := range m.sortedCtx() {
-			n := strings.ToLower(f.Name())
-			if (m.ctx[f].isCount || m.ctx[f].isStack) && strings.Contains(n, "loop") {
-				loopFields = append(loopFields, f)
-			}
-		}
+		loopFields := actxLoopFields(m)
 		if len(loopFields) == 0 {
 			out = append(out, Obligation{Key: rel + "|<loop counter>", Status: Undecided, Detail: "no ++/-- or push/pop context field naming a loop found in " + rel})
 			continue
@@ -405,7 +459,7 @@ func ruleLoopRegion(c *Ctx) []Obligation {
 		for fn := range a.res {
 			fns = append(fns, fn)
 		}
-		sort.Slice(fns, func(i, j int) bool { return fns[i].Pos() < fns[j].Pos() })
+		sort.Slice(fns, func(i, j int) bool { return actxPosLess(c, fns[i].Pos(), fns[j].Pos()) })
 		for _, lf := range loopFields {
 			for _, fn := range fns {
 				r := a.res[fn]
@@ -426,6 +480,7 @@ func ruleLoopRegion(c *Ctx) []Obligation {
 				}
 				// collect tree-typed calls per loop node type, per path
 				perNode := map[string][]actxRegionCall{}
+				var viaCallers []actxRegionCall
 				for _, e := range r.exits {
 					var pathNode string
 					var calls []actxRegionCall
@@ -446,6 +501,34 @@ func ruleLoopRegion(c *Ctx) []Obligation {
 								}
 							}
 							if rc.node == "" {
+								// the argument is a parameter of this function (a helper that raises the
+								// region around a body it is handed): the construct belongs to the callers;
+								// substitute the argument of every call site
+								if pid, ok := ast.Unparen(arg).(*ast.Ident); ok && rc.inside {
+									if pi := actxParamIndex(m, fn, pid); pi >= 0 && len(m.callers[fn]) > 0 {
+										for _, cs := range m.callers[fn] {
+											if pi >= len(cs.call.Args) {
+												continue
+											}
+											sub := actxRegionCall{owner: cs.caller, inside: true, callee: ev.callee.Name() + " (in " + fn.Name() + ")", pos: cs.call.Pos()}
+											if sel, ok := ast.Unparen(cs.call.Args[pi]).(*ast.SelectorExpr); ok {
+												if nt, ok := actxTreeType(m.info.TypeOf(sel.X)); ok {
+													if _, isStruct := nt.Underlying().(*types.Struct); isStruct {
+														sub.node, sub.field = nt.Obj().Name(), sel.Sel.Name
+														if ft, ok := actxTreeType(m.info.TypeOf(cs.call.Args[pi])); ok {
+															sub.ftype = ft.Obj().Name()
+														}
+													}
+												}
+											}
+											if sub.node == "" {
+												sub.other = exprStr(cs.call.Args[pi])
+											}
+											viaCallers = append(viaCallers, sub)
+										}
+										continue
+									}
+								}
 								rc.other = exprStr(arg)
 							}
 							calls = append(calls, rc)
@@ -467,14 +550,67 @@ func ruleLoopRegion(c *Ctx) []Obligation {
 					}
 					perNode[pathNode] = append(perNode[pathNode], calls...)
 				}
+				ownerOf := map[string]*types.Func{}
+				seenVia := map[string]bool{}
+				for _, sub := range viaCallers {
+					node := sub.node
+					if node == "" {
+						node = "?"
+					}
+					k := m.fname(sub.owner) + "\x00" + node
+					dk := fmt.Sprintf("%s|%d|%s", k, sub.pos, sub.field)
+					if seenVia[dk] {
+						continue
+					}
+					seenVia[dk] = true
+					if _, had := perNode[k]; !had {
+						// the caller's own calls that take a field of the node: outside the region
+						ast.Inspect(m.decls[sub.owner].Body, func(x ast.Node) bool {
+							ce, ok := x.(*ast.CallExpr)
+							if !ok {
+								return true
+							}
+							g := CalleeOf(m.info, ce)
+							if g == nil || m.decls[g] == nil || ce == nil {
+								return true
+							}
+							for _, a := range ce.Args {
+								sel, ok := ast.Unparen(a).(*ast.SelectorExpr)
+								if !ok {
+									continue
+								}
+								nt, ok := actxTreeType(m.info.TypeOf(sel.X))
+								if !ok || nt.Obj().Name() != sub.node {
+									continue
+								}
+								if _, isTree := actxTreeType(m.info.TypeOf(a)); !isTree {
+									continue
+								}
+								if ce.Pos() == sub.pos {
+									continue // the call that hands the body to the helper
+								}
+								perNode[k] = append(perNode[k], actxRegionCall{owner: sub.owner, inside: false, callee: g.Name(), node: sub.node, field: sel.Sel.Name, pos: ce.Pos()})
+							}
+							return true
+						})
+					}
+					perNode[k] = append(perNode[k], sub)
+					ownerOf[k] = sub.owner
+				}
 				var nodes []string
 				for n := range perNode {
 					nodes = append(nodes, n)
 				}
 				sort.Strings(nodes)
-				for _, node := range nodes {
-					calls := perNode[node]
-					key := fmt.Sprintf("%s|%s|%s", m.fname(fn), m.fieldName(lf), node)
+				for _, nodeKey := range nodes {
+					calls := perNode[nodeKey]
+					node := nodeKey
+					keyFn := fn
+					if o := ownerOf[nodeKey]; o != nil {
+						keyFn = o
+						node = nodeKey[strings.Index(nodeKey, "\x00")+1:]
+					}
+					key := fmt.Sprintf("%s|%s|%s", m.fname(keyFn), m.fieldName(lf), node)
 					var bad []string
 					inside := map[string]bool{}
 					outside := map[string]bool{}
@@ -613,7 +749,9 @@ func actxFnBoundary(c *Ctx) []Obligation {
 				}
 			}
 		}
-		if m.ctx[f].isCount && strings.Contains(strings.ToLower(f.Name()), "loop") {
+	}
+	for _, f := range actxLoopFields(m) {
+		if m.ctx[f].isCount {
 			loopField = f
 		}
 	}
@@ -624,7 +762,7 @@ func actxFnBoundary(c *Ctx) []Obligation {
 	for fn := range a.res {
 		fns = append(fns, fn)
 	}
-	sort.Slice(fns, func(i, j int) bool { return fns[i].Pos() < fns[j].Pos() })
+	sort.Slice(fns, func(i, j int) bool { return actxPosLess(c, fns[i].Pos(), fns[j].Pos()) })
 	n := 0
 	for _, fn := range fns {
 		if m.inlinable[fn] {
@@ -686,4 +824,89 @@ func actxFnBoundary(c *Ctx) []Obligation {
 		out = append(out, Obligation{Key: "homescript/analyzer|function boundary", Status: Undecided, Detail: "no function installs a function context around a body"})
 	}
 	return out
+}
+
+// actxLoopFields: the counter / stack context fields that record "inside a
+// loop". By role: the fields consulted where a break / continue statement is
+// handled — read (directly or through a getter of the package) by a function
+// that takes a Break/Continue statement node, or inside the case clause for
+// the Break/Continue statement kind. Falls back to the field's name when the
+// role yields nothing.
+func actxLoopFields(m *actxPkg) []*types.Var {
+	cand := map[*types.Var]bool{}
+	readIn := func(n ast.Node) {
+		ast.Inspect(n, func(x ast.Node) bool {
+			switch y := x.(type) {
+			case *ast.SelectorExpr:
+				if f, _ := m.fieldOf(y); f != nil && m.ctx[f] != nil {
+					cand[f] = true
+				}
+			case *ast.CallExpr:
+				if g := CalleeOf(m.info, y); g != nil && m.decls[g] != nil && len(m.writes[g]) == 0 {
+					for f := range m.reads[g] {
+						if m.ctx[f] != nil {
+							cand[f] = true
+						}
+					}
+				}
+			}
+			return true
+		})
+	}
+	isJumpNode := func(t types.Type) bool {
+		n, ok := actxTreeType(t)
+		if !ok {
+			return false
+		}
+		name := n.Obj().Name()
+		return strings.HasSuffix(name, "BreakStatement") || strings.HasSuffix(name, "ContinueStatement")
+	}
+	for _, fn := range m.order {
+		fd := m.decls[fn]
+		sig := fn.Type().(*types.Signature)
+		for i := 0; i < sig.Params().Len(); i++ {
+			if isJumpNode(sig.Params().At(i).Type()) {
+				readIn(fd.Body)
+			}
+		}
+		ast.Inspect(fd.Body, func(x ast.Node) bool {
+			cc, ok := x.(*ast.CaseClause)
+			if !ok {
+				return true
+			}
+			for _, e := range cc.List {
+				if k := ConstOf(m.info, e); k != nil && (k.Name() == "BreakStatementKind" || k.Name() == "ContinueStatementKind") {
+					for _, st := range cc.Body {
+						readIn(st)
+					}
+				}
+			}
+			return true
+		})
+	}
+	var out []*types.Var
+	for _, f := range m.sortedCtx() {
+		if (m.ctx[f].isCount || m.ctx[f].isStack) && cand[f] {
+			out = append(out, f)
+		}
+	}
+	if len(out) == 0 {
+		for _, f := range m.sortedCtx() {
+			if (m.ctx[f].isCount || m.ctx[f].isStack) && strings.Contains(strings.ToLower(f.Name()), "loop") {
+				out = append(out, f)
+			}
+		}
+	}
+	return out
+}
+
+// actxParamIndex: id names parameter i of fn (-1: not a parameter).
+func actxParamIndex(m *actxPkg, fn *types.Func, id *ast.Ident) int {
+	sig := fn.Type().(*types.Signature)
+	for i := 0; i < sig.Params().Len(); i++ {
+		if m.info.Uses[id] == sig.Params().At(i) {
+			return i
+		}
+	}
+	return -1
 }
